@@ -50,14 +50,15 @@ PROP = {
         "Momo.MMap.listLawful",
     ],
     "harnesses": [
-        {"name": "c08_limp4", "src": "c08_mmap.cpp", "flags": ["-DVF_PART=0"]},
-        {"name": "c08_open8", "src": "c08_mmap.cpp", "flags": ["-DVF_PART=1"]},
-        {"name": "c08_stdish", "src": "c08_mmap.cpp", "flags": ["-DVF_PART=2"]},
+        {"name": "c08_limp4", "src": "c08_mmap.cpp", "sanitize": "asan", "flags": ["-DVF_PART=0", "-O0"]},
+        {"name": "c08_open8", "src": "c08_mmap.cpp", "sanitize": "asan", "flags": ["-DVF_PART=1", "-O0"]},
+        {"name": "c08_stdish", "src": "c08_mmap.cpp", "sanitize": "asan", "flags": ["-DVF_PART=2", "-O0"]},
+        {"name": "c08_more", "src": "c08_mmap.cpp", "sanitize": "asan", "flags": ["-DVF_PART=3", "-O0"]},
     ],
     "rule": ("native API: random histories (700 ops quick / 4000 thorough per run, 3 / 12 runs per instantiation; add by key / by key position, InsertKey, AddKeyCrt, "
              "Remove(keyIter, index) through Find- and traversal-origin key iterators, Remove(predicate), RemoveValues, RemoveKey by key and "
-             "by position, ResetKey, Clear, copy, move, swap, Find, pair and key traversal, dumps) over 8 instantiations = maxFastCount "
-             "{1, 2, 7, 15} x key buckets {LimP4<4>/<2>, Open8} x key kinds {trivially copyable, throwing copy-assignment} x values "
+             "by position, ResetKey, Clear, copy, move, swap, Find, pair and key traversal, dumps) over 12 instantiations = maxFastCount "
+             "{1, 2, 7, 15} x key buckets {LimP4<1>/<2>/<3>/<4>, Open8, Open2N2<1>/<3>} x key kinds {trivially copyable, throwing copy-assignment} x values "
              "{uint32_t, non-trivial nothrow-move object}, hash family drawn from {constant, low 4 bits, high byte, identity, multiplicative, "
              "two clusters}, key ranges 5..150; bursts of 2*maxFast+2 .. 130 additions to one key followed by drains so that every array "
              "crosses pool k -> k+1 -> heap -> grow -> shrink -> none; injected faults: refused value-array allocation, refused allocation "
@@ -73,8 +74,11 @@ PROP = {
              "value-less key must compare equal. distinct_nontrivial = number of operations that crossed a representation boundary "
              "(pool k->k+1, fast->heap, heap grow, heap shrink, ->none, copy re-packing), multi-element range erases, erase_if leaving "
              "value-less keys, and equality checks that must hold despite different order / value-less keys."),
-    "runtime_only": ["leak / double-free ledger of the memory manager and value-object counters at the end of every native history (C03 piggyback)"],
-    "not_modelled": ["iterator version counters (C15)", "which memory pool block a value array occupies; MemPool internals (C09)",
+    "runtime_only": ["all three harness executables run under ASan + UBSan (out-of-bounds / use-after-free in the pool <-> heap transitions of the value arrays would abort the run)",
+                     "leak / double-free ledger of the memory manager and value-object counters at the end of every native history (C03 piggyback)"],
+    "not_modelled": ["iterator version counters (C15)",
+                     "RemoveKey roll-back after a throwing key assignment is handled in the driver (op token fk: state unchanged, E:user), it is not a parameter of MM.removeKey",
+                     "Remove(pairFilter) is modelled key by key (VArr.removeIf) rather than as the iterator loop it is written as; the iterator machine itself (pvMove) is modelled and proved to enumerate the pairs", "which memory pool block a value array occupies; MemPool internals (C09)",
                      "faults during growth/migration of the key table (C11 covers them; C08 injects faults only when no growth is imminent)",
                      "ranges whose ends come from different sources (lookup result + traversal): documented deviation, lookup results cannot traverse",
                      "HashMultiMap(initializer_list) / Add(range) (loops over the modelled Add)"],
